@@ -68,6 +68,12 @@ func genC19(r *rand.Rand, tier string, env *Env) []Case {
 		args := append(append([][]byte{}, empty...), []byte(w))
 		cases = append(cases, Case{Kind: "fixed", Ops: []Op{{"gen.run", args}, {"pass.cleanUp", [][]byte{[]byte(w)}}}, Oracles: []Op{{"c19.nocrash", args}, {"c19.cli", args}}})
 	}
+	// an empty line made by a suffix replacement (`-- @ ""` on an entry that is exactly `@`) inside and outside cmdline blocks
+	for _, prog := range []string{"##!> cmdline unix\n##!> include cmds -- @ \"\"\n##!<\n", "##!> cmdline windows\nfoo\n##!> include-except cmds none -- @ \"\"\n##!<\n",
+		"##!> include cmds -- @ \"\"\nx\n", "##!> assemble\n##!> include cmds -- @ \"\"\n##!=>\ny\n##!<\n", "##!> cmdline unix\n##!> include cmds -- s \"\" @ \"\"\n##!<\n"} {
+		args := append(append([][]byte{}, empty...), []byte(prog), []byte("i"), []byte("cmds.ra"), []byte("ls@\n@\ncat@\ns\n"), []byte("e"), []byte("none.ra"), []byte("zzz\n"))
+		cases = append(cases, Case{Kind: "fixed", Ops: []Op{{"gen.run", args}}, Oracles: []Op{{"c19.nocrash", args}, {"c19.cli", args}}})
+	}
 	for i := 0; i < n; i++ {
 		p := genProgram(r, progOpts{maxDepth: 2, maxItems: 5, includes: true, defs: true, cmdline: true, exotic: 0.5, malformed: 0.2, flagsPfxSf: true, inline: []float64{0, 0.3}[i%2]})
 		cases = append(cases, Case{Kind: "program", Ops: []Op{p.parseOp(), p.genOp()}, Oracles: []Op{{"c19.nocrash", p.genOp().Args}}})
